@@ -4,6 +4,7 @@ import (
 	"fmt"
 	"go/token"
 	"go/types"
+	"strings"
 
 	"golang.org/x/tools/go/ssa"
 )
@@ -75,6 +76,19 @@ func (w *pathWalker) inlineCall(call *ssa.Call, callee *ssa.Function) string {
 		if i < len(args) {
 			if n, ok := w.env.eval(args[i]); ok {
 				child.env.bind(p, n)
+			}
+			// tracked state reachable through the argument (pointer to, or value
+			// of, a tracked record) is visible under the parameter's name
+			pp := w.path(args[i])
+			if pp == "" {
+				pp = w.valPath(args[i])
+			}
+			if pp != "" {
+				for k, v := range w.state {
+					if strings.HasPrefix(k, pp+".") || strings.HasPrefix(k, pp+"[") {
+						child.state[p.Name()+k[len(pp):]] = v
+					}
+				}
 			}
 		}
 	}
@@ -162,14 +176,33 @@ func (w *pathWalker) walk(b, pred *ssa.BasicBlock) string {
 			switch x := in.(type) {
 			case *ssa.UnOp:
 				if x.Op == token.MUL {
-					if p := accessPath(x.X); p != "" {
+					if p := w.path(x.X); p != "" {
 						if n, ok := w.state[p]; ok {
 							w.env.bind(x, n)
 						}
 					}
 				}
+			case *ssa.Field:
+				// field of a struct VALUE (parameter, or loaded from a tracked location)
+				if p := w.valPath(x); p != "" {
+					if n, ok := w.state[p]; ok {
+						w.env.bind(x, n)
+					}
+				}
 			case *ssa.Store:
-				if p := accessPath(x.Addr); p != "" {
+				if p := w.path(x.Addr); p != "" {
+					// whole-struct copy from a tracked location: copy the tracked fields
+					if u, ok := x.Val.(*ssa.UnOp); ok && u.Op == token.MUL {
+						if _, isStruct := u.Type().Underlying().(*types.Struct); isStruct {
+							if q := w.path(u.X); q != "" {
+								for k, v := range w.state {
+									if strings.HasPrefix(k, q+".") {
+										w.state[p+k[len(q):]] = v
+									}
+								}
+							}
+						}
+					}
 					if _, tracked := w.state[p]; tracked || w.trackAll(p) {
 						if n, ok := w.env.eval(x.Val); ok {
 							w.state[p] = n
@@ -290,6 +323,68 @@ func (w *pathWalker) walk(b, pred *ssa.BasicBlock) string {
 func (w *pathWalker) trackAll(string) bool { return false }
 
 func (w *pathWalker) evalNoPhi(v ssa.Value) (int64, bool) { return w.env.eval(v) }
+
+// valPath names a struct VALUE (not an address): a parameter, a value loaded
+// from a tracked location, or a field of such a value.
+func (w *pathWalker) valPath(v ssa.Value) string {
+	switch x := v.(type) {
+	case *ssa.Parameter:
+		return x.Name()
+	case *ssa.UnOp:
+		if x.Op == token.MUL {
+			return w.path(x.X)
+		}
+	case *ssa.Field:
+		st, ok := x.X.Type().Underlying().(*types.Struct)
+		b := w.valPath(x.X)
+		if !ok || b == "" {
+			return ""
+		}
+		return b + "." + st.Field(x.Field).Name()
+	}
+	return ""
+}
+
+// path is accessPath with indices resolved through the current bindings, so
+// that elements of a slice of records ("ps[1].negate") and bytes of a small
+// array ("counter[9]") can be tracked as abstract state.
+func (w *pathWalker) path(v ssa.Value) string {
+	switch x := v.(type) {
+	case *ssa.IndexAddr:
+		b := w.path(x.X)
+		if b == "" {
+			return ""
+		}
+		if n, ok := w.env.eval(x.Index); ok {
+			return b + "[" + itoa(n) + "]"
+		}
+		return b + "[?]"
+	case *ssa.FieldAddr:
+		st := derefStruct(x.X.Type())
+		b := w.path(x.X)
+		if st == nil || b == "" {
+			return ""
+		}
+		return b + "." + st.Field(x.Field).Name()
+	case *ssa.UnOp:
+		if x.Op == token.MUL {
+			return w.path(x.X)
+		}
+		return ""
+	case *ssa.Slice:
+		// reslicing from the start keeps element identity
+		if x.Low == nil {
+			return w.path(x.X)
+		}
+		if k, ok := w.env.eval(x.Low); ok && k == 0 {
+			return w.path(x.X)
+		}
+		return ""
+	case *ssa.Phi:
+		return ""
+	}
+	return accessPath(v)
+}
 
 // sliceLen: the length of the result of a slice expression when slices are
 // represented by their lengths (w.lengths): high - low, with the operand's
